@@ -27,6 +27,10 @@ def _refused(ctx, st, r, dev, n0, excname, what):
     ctx.check("%s: refused (no command object returned)" % what, ctx.oracle(st == "exc"), repr(r))
     if st == "exc":
         ctx.check("%s: refused with %s" % (what, excname), type(r).__name__ == excname, repr(r))
+        if excname == "OpcodeException":
+            from pyscsi.pyscsi.scsi_command import SCSICommand
+            ctx.check("%s: ... the one a caller catches as SCSICommand.OpcodeException" % what,
+                      isinstance(r, SCSICommand.OpcodeException), repr(type(r)))
     ctx.check("%s: nothing reached the device" % what, len(dev.executed) == ctx.oracle(n0))
 
 
@@ -81,7 +85,9 @@ def h_opcode(ctx, cmd):
     stt, r = ctx.attempt(K.get_class(spec), Op, **dict(a, **e))
     ctx.check("refused", ctx.oracle(stt == "exc"))
     if stt == "exc":
+        from pyscsi.pyscsi.scsi_command import SCSICommand
         ctx.check("OpcodeException", type(r).__name__ == "OpcodeException", repr(r))
+        ctx.check("... the one a caller catches as SCSICommand.OpcodeException", isinstance(r, SCSICommand.OpcodeException), repr(type(r)))
     # through the facade: a command-set table that assigns such a code
     if spec["facade"] and spec["lookup"] == "key":
         from pyscsi.utils.enum import Enum
@@ -174,6 +180,14 @@ def h_xcopy(ctx, lid, case, key=None):
     elif case == "lu-id-type":
         v = ctx.int("lu_id_type", 2, lo=1)
         t["lu_id_type"] = v
+    elif case == "segment-foreign-keys":
+        # the keys of a block->block segment under the type code of a block<->stream segment (and the other way
+        # round would be a different key set): unknown keys for that type -- also after a valid command whose segment
+        # legitimately carried exactly these keys
+        if ctx.choose("history", ["first request", "after a valid block->block copy with the same keys"]):
+            st0, r0, dev0, _ = _xcopy(ctx, lid, [_good_target(ctx, lid)], [dict(g)])
+            ctx.check("the valid copy is accepted", ctx.oracle(st0 == "ok"), repr(r0))
+        g["descriptor_type_code"] = [0x00, 0x01, 0x0B, 0x0C][ctx.choose("stream-type", ["00", "01", "0B", "0C"])]
     elif case == "missing-type-code":
         del t["descriptor_type_code"]
     elif case == "segment-missing-type-code":
@@ -209,7 +223,9 @@ def h_transport_id(ctx, via, case):
     else:
         st, r = ctx.attempt(s.persistentreserveout, 0, scope, prt, reservation_key=rk, service_action_reservation_key=sark,
                             spec_i_pt=1, all_tg_pt=ctx.int("all_tg_pt", 1), aptpl=ctx.int("aptpl", 1),
-                            transport_ids=[{"protocol_id": 6, "sas_address": bytearray(8)}, tid])
+                            transport_ids=[{"protocol_id": 6, "sas_address": bytearray(8)}] + (
+                                [{"protocol_id": 5, "iscsi_name": tid["iscsi_name"]}]
+                                if ctx.choose("earlier entry for the same port", ["no", "yes"]) else []) + [tid])
     _refused(ctx, st, r, dev, n0, "ValueError", "%s/%s" % (via, case))
 
 
@@ -225,7 +241,7 @@ def obligations(tier):
         obs.append(Ob("prin-service-action/%s" % st, MOD, "h_prin_sa", {"set_name": st}))
     for lid in (1, 4):
         for case in ("target-type-code", "segment-type-code", "device-type", "lu-id-type", "missing-type-code",
-                     "segment-missing-type-code"):
+                     "segment-missing-type-code") + (("segment-foreign-keys",) if lid == 1 else ()):
             obs.append(Ob("xcopy-lid%d/%s" % (lid, case), MOD, "h_xcopy", {"lid": lid, "case": case}))
         for key in _EXTRA_KEYS:
             obs.append(Ob("xcopy-lid%d/target-extra-key/%r" % (lid, key), MOD, "h_xcopy",
